@@ -7,7 +7,7 @@ from props import c06_extract
 
 PROP = 'C06'
 TITLE = 'Receive path: exact stream framing, and no failure on any delivered bytes'
-LEAN_TARGETS = ['NdnProofs.Props.C06']
+LEAN_TARGETS = ['NdnProofs.Props.C06', 'NdnProofs.Props.C06Tasks']
 THEOREMS = [
     'Ndn.C06.frames_concat', 'Ndn.C06.frames_never_partial',
     # the cut of the stream into reads is in the model (NdnModel/StreamReader.lean): every list of chunks
@@ -18,6 +18,11 @@ THEOREMS = [
     # byte-level instantiation (the decoders are the C07 models, no longer black boxes)
     'Ndn.C06.docErr_iff_raisable', 'Ndn.C06.bytes_decoders_raise_only', 'Ndn.C06.receive_bytes_total',
     'Ndn.C06.receive_bytes_frame',
+    # the task layer (NdnModel/FaceTasks.lean): one task per packet under an event loop, for every event history
+    'Ndn.C06.tasks_exactly_once_in_order', 'Ndn.C06.tasks_delivered_when_drained',
+    'Ndn.C06.tasks_chunks_and_turns_irrelevant', 'Ndn.C06.tasks_agree_with_chunked_machine',
+    'Ndn.C06.tasks_never_partial', 'Ndn.C06.tasks_end_mid_packet', 'Ndn.C06.tasks_end_shuts_down',
+    'Ndn.C06.tasks_shutdown_guarantee', 'Ndn.C06.tasks_never_withdrawn', 'Ndn.C06.tasks_isolated',
 ]
 PARTIAL = {}
 TRUSTED = [
@@ -52,7 +57,24 @@ TRUSTED = [
     'modelled. Pending Interests are live (not cancelled, not timed out: those histories are property C03); '
     'params_sha256_checker and the validators do not raise and pass; handlers do not raise; SHA-256 is a parameter of '
     'the theorems (any function) and NdnModel/Sha256.lean in the driver',
-    'C06: asyncio task spawning by the faces (one task per packet) is exercised by the harness only',
+    'C06: the task layer is modelled (NdnModel/FaceTasks.lean: StreamFace.run creating one task per complete packet, '
+    'the ready queue, loop turns, the end of the stream also in the same pass as the last bytes, transport errors, '
+    'app.shutdown() at any instant, main_loop\'s face.shutdown() + _clean_up() on every exit path, receive steps that '
+    'raise) and the tasks_* theorems hold for every event history. As read off appv2.main_loop / app.main_loop / '
+    'StreamFace.shutdown: nobody cancels, awaits or keeps the per-packet tasks - tasks created but not yet run when '
+    'run() ends or shutdown() is called are LEFT TO THE LOOP and run on its next turn (against the tables as _clean_up '
+    'left them); shutdown() while run() waits in a read lets the packet in progress complete and be handed over, the '
+    'bytes behind it are never read. What is still assumed about asyncio: the ready queue is FIFO; create_task '
+    'schedules the first step of the task for the NEXT loop iteration; a task woken by feed_data / feed_eof / '
+    'set_exception runs in the next iteration, after the handles queued before the wake-up, until its next suspension; '
+    'a per-packet task runs its receive step without being interleaved with the others (the receive step is the black '
+    'box Ndn.Recv.receive / receiveBytes of the other theorems; a handler or validator that suspends is outside). Tie: '
+    'the `tasks` cases drive the REAL main_loop of both front-ends over the real StreamFace.run / shutdown and a real '
+    'asyncio.StreamReader on the virtual loop, ONE loop iteration at a time, and compare with the model after every '
+    'iteration and every shutdown(): how many receive steps were entered and how many tasks were created but not yet '
+    'entered; at the end the packets entered in order, the tasks never entered, how main_loop ended, face.running, which '
+    'tasks raised, and how many packets had been received when _clean_up ran. The UDP face\'s datagram_received '
+    '(create_task per datagram) is exercised by the udp cases only (no chunking there: one datagram = one task)',
 ]
 RULE = ('(a) streams of 0..6 packets (types/lengths at the 1/3/5/9-byte TL-number boundaries) plus a proper prefix of '
         'one more, fed to a real StreamReader in chunks (every single cut and sampled/all 2-cuts of streams <= 40 B, random '
@@ -73,7 +95,13 @@ RULE = ('(a) streams of 0..6 packets (types/lengths at the 1/3/5/9-byte TL-numbe
         'that are hard to print or look up (empty / non-UTF-8 / 5000-byte generic components, component types 0, 65535, '
         '65536, 2^32, 2^64-1, digest components of length 0/1/31/33/64, typed-number components of every odd width, no / 300 '
         'components; optional elements absent) in Interests, parameterised Interests with the right digest, Data, Nacks; '
-        'a share of the reception cases runs with DEBUG logging ON (log lines guarded by isEnabledFor). non-trivial = a malformed packet met a state '
+        'a share of the reception cases runs with DEBUG logging ON (log lines guarded by isEnabledFor). '
+        '(e) task layer: scripts over the real main_loop (both front-ends) and StreamFace.run: 1..6 packets + a partial one cut '
+        'into 1..7 chunks (also empty), 0..2 single loop iterations after each chunk (0 = several chunks in one reader '
+        'pass), then EOF after a turn / EOF in the same pass as the last bytes / connection reset / another transport '
+        'error / left open / app.shutdown(), app.shutdown() also at a random instant (between a feed and the reader\'s '
+        'pass, in the middle of a packet whose rest arrives later with more packets behind it), 0..2 receive steps that '
+        'raise. non-trivial = a malformed packet met a state '
         'with a pending Interest or handler, or a stream was cut inside a TL number; distinct = distinct cases')
 
 LP = 0x64
@@ -554,6 +582,57 @@ def big_packets():
     return _cache['big']
 
 
+def tasks_cases(rng, pool, short, quick):
+    """(e) the task layer: scripts over the real main_loop / StreamFace.run - chunks, single loop iterations, the end of
+    the stream (also in the same pass as the last bytes), app.shutdown() at any instant (also in the middle of a packet,
+    also between a feed and the reader's pass), a transport error, receive steps that raise"""
+    fixed = [
+        # seeded C06-6: the last packets and the end of the stream are seen by the framing loop in one pass
+        [['feed', '0501070600'], ['eof'], ['iter'], ['iter']],
+        [['feed', '050107'], ['iter'], ['feed', '06000901'], ['eof'], ['iter']],
+        # shutdown() with tasks in the ready queue; in the middle of a packet whose rest still arrives with more behind
+        [['feed', '0501070600'], ['iter'], ['shutdown'], ['iter']],
+        [['feed', '0501'], ['iter'], ['shutdown'], ['feed', '0706000801'], ['iter'], ['iter']],
+        [['feed', '0501'], ['shutdown'], ['feed', '07'], ['eof'], ['iter']],
+        [['feed', '050107060008'], ['shutdown'], ['iter'], ['feed', '00'], ['iter']],
+        [['feed', '05010706000700'], ['iter'], ['reset'], ['iter']],
+        [['feed', '0501070600'], ['iter'], ['iter'], ['other'], ['iter']],
+    ]
+    for fe in ('v2', 'v1'):
+        for sc in fixed:
+            yield {'k': 'tasks', 'fe': fe, 'raises': [], 'script': sc}
+            yield {'k': 'tasks', 'fe': fe, 'raises': [0], 'script': sc}
+    for i in range(60 if quick else 900):
+        pk = [rng.choice(short if rng.random() < 0.7 else pool) for _ in range(rng.randint(1, 6))]
+        nxt = rng.choice(short)
+        partial = nxt[:rng.choice([0, 0, 1, len(nxt) - 1])]
+        s = b''.join(pk) + partial
+        cuts = sorted(rng.randrange(0, len(s) + 1) for _ in range(rng.randint(0, 6)))
+        chunks = [s[a:b] for a, b in zip([0] + cuts, cuts + [len(s)])]
+        sc = []
+        for ch in chunks:
+            sc.append(['feed', ch.hex()])
+            sc += [['iter']] * rng.choice([0, 1, 1, 1, 2])
+        end = rng.choice(['eof', 'eof', 'eof-same-pass', 'eof-same-pass', 'open', 'reset', 'other', 'shutdown-end'])
+        if end == 'eof':
+            sc += [['iter'], ['eof']]
+        elif end == 'eof-same-pass':
+            while sc and sc[-1][0] == 'iter':
+                sc.pop()
+            sc.append(['eof'])
+        elif end in ('reset', 'other'):
+            sc += [['iter'], [end]]
+        elif end == 'shutdown-end':
+            sc.append(['shutdown'])
+        sc += [['iter']] * rng.choice([0, 1, 2])
+        if rng.random() < 0.45 and end != 'shutdown-end':
+            sc.insert(rng.randrange(len(sc) + 1), ['shutdown'])
+        if not _tasks_valid(sc):
+            continue
+        raises = sorted(set(rng.randrange(len(pk)) for _ in range(rng.choice([0, 0, 1, 2]))))
+        yield {'k': 'tasks', 'fe': ('v2', 'v1')[i % 2], 'raises': raises, 'script': sc}
+
+
 def cases(rng, tier):
     quick = tier == 'quick'
     P = base_packets()
@@ -596,6 +675,8 @@ def cases(rng, tier):
                         yield {'k': 'turn', 'fe': fe, 'how': how, 'what': what, 'dg': dg, 'two': two}
     pool = stream_packets(rng)
     short = [p for p in pool if len(p) <= 12]
+    # --- (e) task layer ----------------------------------------------------------------------
+    yield from tasks_cases(rng, pool, short, quick)
     # --- (a) streams -------------------------------------------------------------------------
     n_streams = 40 if quick else 400
     for si in range(n_streams):
@@ -737,6 +818,17 @@ def shrink(case):
 
 def _shrink(case):
     k = case['k']
+    if k == 'tasks':
+        sc = case['script']
+        for i in range(len(sc)):
+            if _tasks_valid(sc[:i] + sc[i + 1:]):
+                yield {**case, 'script': sc[:i] + sc[i + 1:]}
+        for i, a in enumerate(sc):
+            if a[0] == 'feed' and len(a[1]) > 2:
+                yield {**case, 'script': sc[:i] + [['feed', a[1][:-2]]] + sc[i + 1:]}
+        if case.get('raises'):
+            yield {**case, 'raises': case['raises'][1:]}
+        return
     if k == 'turn':
         if case['two']:
             yield dict(case, two=False)
@@ -926,6 +1018,150 @@ def run_udp(case):
     finally:
         loop.shutdown()
 
+
+
+# ---------------------------------------------------------------------------------- implementation: task layer
+def _tasks_plan(case):
+    """the model history for a script, and for every script action that can be observed (iter / shutdown) the index
+    of the model event after which the model is to be compared.  What is assumed about asyncio is exactly this
+    translation: FIFO ready queue - the per-packet tasks created in an earlier iteration run before the reader task
+    woken by feed_data / feed_eof / set_exception since then (model: `t`, then ONE reader pass over everything fed in
+    between: `f:` / `c:` when EOF came with it / `x:`); the tasks that pass creates run in the NEXT iteration."""
+    evs = ['r:%d' % k for k in case.get('raises', [])]
+    marks = []
+    st = {'pend': b'', 'eof': False, 'exc': None}
+
+    def one_iter():
+        evs.append('t')
+        if st['exc']:
+            evs.append('x:' + st['exc'])
+            st['exc'] = None
+        elif st['pend'] or st['eof']:
+            evs.append(('c:' if st['eof'] else 'f:') + (st['pend'].hex() or '-'))
+            st['pend'], st['eof'] = b'', False
+    for act in case['script']:
+        if act[0] == 'feed':
+            st['pend'] += bytes.fromhex(act[1])
+        elif act[0] == 'eof':
+            st['eof'] = True
+        elif act[0] in ('reset', 'other'):
+            st['exc'] = act[0]
+        elif act[0] == 'shutdown':
+            evs.append('sd')
+            marks.append(len(evs) - 1)
+        elif act[0] == 'iter':
+            one_iter()
+            marks.append(len(evs) - 1)
+    one_iter()
+    one_iter()
+    return evs, marks
+
+
+def _tasks_valid(script):
+    """no bytes after the end of the stream (StreamReader asserts that); a transport error only when the reader task has
+    seen everything fed so far (bytes and an error in one pass are outside the model, see the stream cases' note)"""
+    pend = eof = dead = False
+    for a in script:
+        if a[0] == 'feed':
+            if eof:
+                return False
+            pend = pend or bool(a[1])
+        elif a[0] == 'eof':
+            if eof or dead:
+                return False
+            eof = pend = True
+        elif a[0] in ('reset', 'other'):
+            if pend or eof or dead:
+                return False
+            dead = True
+        elif a[0] == 'iter':
+            pend = False
+    return True
+
+
+def _tasks_fed(case):
+    return b''.join(bytes.fromhex(a[1]) for a in case['script'] if a[0] == 'feed')
+
+
+def run_tasks(case):
+    """the REAL main_loop of the front-end over the REAL StreamFace.run / shutdown on the virtual loop: the script feeds a
+    real asyncio.StreamReader, ends the stream, calls app.shutdown() and makes single loop iterations; the face's
+    callback (the real _receive behind a recorder) notes when a per-packet task is CREATED and when it is ENTERED."""
+    from ndn.transport.stream_face import StreamFace
+
+    class F(StreamFace):
+        async def open(self):
+            self.reader = asyncio.StreamReader()
+            self.writer = _Writer()
+            self.running = True
+
+        def isLocalFace(self):
+            return True
+    raises = set(case.get('raises', []))
+    with AppRig(case['fe']) as rig:
+        app, loop = rig.app, rig.loop
+        face = F()
+        app.face = face
+        orig = app._receive
+        created, entered, raised, cleanups = [], [], [], []
+
+        async def _cb(i, typ, buf):
+            entered.append(i)
+            if i in raises:
+                raised.append(i)
+                raise RuntimeError('scripted failure of a receive step')
+            await orig(typ, buf)
+
+        def cb(typ, buf):
+            created.append([typ, bytes(buf).hex()])
+            return _cb(len(created) - 1, typ, buf)
+        face.callback = cb
+        real_clean = app._clean_up
+
+        def clean():
+            cleanups.append(len(entered))
+            return real_clean()
+        app._clean_up = clean
+        main = loop.create_task(app.main_loop())
+        loop.settle(limit=2000)
+        counts = []
+        hung = False
+
+        def one_iter():
+            loop.call_soon(loop.stop)
+            loop.run_forever()
+        try:
+            for act in case['script']:
+                if act[0] == 'feed':
+                    face.reader.feed_data(bytes.fromhex(act[1]))
+                elif act[0] == 'eof':
+                    face.reader.feed_eof()
+                elif act[0] == 'reset':
+                    face.reader.set_exception(ConnectionResetError())
+                elif act[0] == 'other':
+                    face.reader.set_exception(OSError('scripted'))
+                elif act[0] == 'shutdown':
+                    app.shutdown()
+                    counts.append([len(entered), len(created) - len(entered)])
+                elif act[0] == 'iter':
+                    one_iter()
+                    counts.append([len(entered), len(created) - len(entered)])
+            loop.settle(limit=2000)
+        except RuntimeError:
+            hung = True
+        if main.done() and not main.cancelled() and main.exception() is not None:
+            raw = type(main.exception()).__name__
+            status = 'crashed:' + (raw if raw in ('IncompleteReadError', 'ConnectionResetError') else 'Other')
+        elif main.done():
+            status = 'shutdown'
+        else:
+            status = 'running'
+        import gc
+        gc.collect()
+        return {'tasks': True, 'created': created, 'entered': entered, 'raised': raised, 'counts': counts,
+                'cleanup': cleanups[0] if cleanups else None, 'ncleanups': len(cleanups), 'status': status,
+                'running': bool(face.running), 'closed': face.writer.closed if face.writer else -1, 'hung': hung,
+                'errors': [list(e) for e in loop.errors]}
 
 # ---------------------------------------------------------------------------------- implementation: reception
 def _comps(name):
@@ -1122,6 +1358,8 @@ def run_impl(case):
         return run_udp(case)
     if case['k'] == 'turn':
         return run_turn(case)
+    if case['k'] == 'tasks':
+        return run_tasks(case)
     return run_recv(case)
 
 
@@ -1206,6 +1444,8 @@ def model_line(case, impl):
         return 'C06 chunks ' + '|'.join([c.hex() or '-' for c in _chunks(case)] + ['reset' if case.get('end') == 'reset' else 'eof'])
     if k == 'udp':
         return 'C06 udp ' + (case['data'] or '-')
+    if k == 'tasks':
+        return 'C06 tasks ' + ' '.join(_tasks_plan(case)[0])
     if k == 'turn':
         return None          # same-turn endings are outside the reception model (live pending Interests): oracle only
     groups = {}
@@ -1248,6 +1488,14 @@ def model_obs(answer, case, impl):
         return {'got': pk, 'rem': '' if rem == '-' else rem, 'trace': trace, 'status': status}
     if k == 'udp':
         return answer
+    if k == 'tasks':
+        assert answer.startswith('ok '), answer
+        tr, proc, queue, status, running, errs, clean = answer[3:].split(' ; ')
+        trace = [[int(y) for y in x.split('/')] for x in tr.split(',')]
+        pk = lambda ps: [] if ps == '.' else [[int(x.split(':')[0]), '' if x.split(':')[1] == '-' else x.split(':')[1]] for x in ps.split(',')]
+        return {'counts': [trace[m] for m in _tasks_plan(case)[1]], 'processed': pk(proc), 'pending': pk(queue), 'status': status,
+                'running': running == '1', 'raised': [] if errs == '.' else [int(x) for x in errs.split(',')],
+                'cleanup': None if clean == '.' else int(clean)}
     parts = answer.split(' # ')
     assert len(parts) == 2, answer
     obs = {}
@@ -1268,6 +1516,11 @@ def model_obs(answer, case, impl):
 
 
 def impl_obs(impl):
+    if impl.get('tasks'):
+        ent = set(impl['entered'])
+        return {'counts': impl['counts'], 'processed': [impl['created'][i] for i in impl['entered']],
+                'pending': [c for i, c in enumerate(impl['created']) if i not in ent], 'status': impl['status'],
+                'running': impl['running'], 'raised': impl['raised'], 'cleanup': impl['cleanup']}
     if 'trace' not in impl:
         if 'running' in impl:      # stream
             return {'got': impl['got'], 'rem': impl['rem'], 'trace': impl['chunk_trace'], 'status': impl['status']}
@@ -1309,6 +1562,8 @@ def _is_prefix(a, b):
 
 def oracle(case, impl):
     k = case['k']
+    if k == 'tasks':
+        return _oracle_tasks(case, impl)
     if k == 'stream':
         s = _stream_bytes(case)
         if impl['hung']:
@@ -1432,7 +1687,44 @@ def oracle(case, impl):
     return None
 
 
+def _oracle_tasks(case, impl):
+    """from the statement: exactly the sequence of complete packets, each once and in order; no partial packet; no
+    background task ends with an unhandled error (other than the scripted failures, one each)"""
+    if impl['hung']:
+        return 'tasks: the loop did not come to rest after the input'
+    s = _tasks_fed(case)
+    want, pos = [], 0
+    while True:                       # the complete elements of everything fed (independent of the library)
+        t = read_num(s, pos)
+        l = read_num(s, t[1]) if t else None
+        if not t or not l or l[1] + l[0] > len(s):
+            break
+        want.append([t[0], s[pos:l[1] + l[0]].hex()])
+        pos = l[1] + l[0]
+    ent = [impl['created'][i] for i in impl['entered']]
+    if impl['entered'] != list(range(len(impl['entered']))):
+        return 'tasks: the per-packet tasks were not entered in the order in which they were created'
+    if ent != want[:len(ent)]:
+        j = next((i for i in range(min(len(ent), len(want))) if ent[i] != want[i]), min(len(ent), len(want)))
+        return f'tasks: what was handed over is not a prefix of the complete packets of the stream (first difference at packet {j})'
+    if len(impl['created']) != len(impl['entered']):
+        return (f"tasks: {len(impl['created']) - len(impl['entered'])} complete packet(s) were read off the stream but their "
+                'receive step was never entered')
+    acts = [a[0] for a in case['script']]
+    if not any(a in ('shutdown', 'reset', 'other') for a in acts) and len(ent) != len(want):
+        return f'tasks: handed over {len(ent)} packets, expected exactly the {len(want)} complete ones'
+    bg = [e for e in impl['errors']]
+    if len(bg) != len(impl['raised']) or any(e[0] != 'RuntimeError' for e in bg):
+        other = [e[0] for e in bg if e[0] != 'RuntimeError']
+        return f"tasks: a background task ended with an unhandled error ({(other or ['?'])[0]})"
+    if 'eof' in acts and impl['status'] != 'shutdown':
+        return f"tasks: the stream ended but main_loop did not end normally ({impl['status']})"
+    return None
+
+
 def nontrivial(case, impl):
+    if case['k'] == 'tasks':
+        return len(impl['created']) >= 1
     if case['k'] == 'stream':
         return bool(case['cuts'])
     if case['k'] == 'udp':
@@ -1444,7 +1736,21 @@ def nontrivial(case, impl):
 
 def tags(case, impl):
     t = ['kind:' + case['k']]
-    if case['k'] == 'stream':
+    if case['k'] == 'tasks':
+        acts = [a[0] for a in case['script']]
+        t.append('tasks:' + case['fe'])
+        t.append('tasks-created:%d' % min(len(impl['created']), 6))
+        for a in ('eof', 'shutdown', 'reset', 'other'):
+            if a in acts:
+                t.append('tasks-' + a)
+        if impl['raised']:
+            t.append('tasks-receive-step-raises')
+        evs = _tasks_plan(case)[0]
+        if any(e.startswith('c:') and e != 'c:-' for e in evs):
+            t.append('tasks-last-bytes-and-eof-in-one-pass')
+        if 'sd' in evs and any(e.startswith(('f:', 'c:')) and e != 'c:-' for e in evs[evs.index('sd'):]):
+            t.append('tasks-bytes-after-shutdown')
+    elif case['k'] == 'stream':
         t.append('cuts:%d' % min(len(case['cuts']), 8))
         t.append('stream-packets:%d' % len(impl['got']))
         t.append('stream-end:' + case.get('end', 'eof'))
@@ -1493,7 +1799,16 @@ LEVEL_TEXT = ('Lean 4 theorems over (a) a model of StreamFace.run / read_tl_num_
               'with the decoders instantiated by the byte-level decoder models of C07 (whose error classes are proved there '
               'for every byte string) reception is total for EVERY delivered byte string and type number '
               '(receive_bytes_total); '
-              '(c) UdpFace.datagram_received is total for every datagram. Model and code are tied on every run by differential '
+              '(c) UdpFace.datagram_received is total for every datagram; '
+              '(d) the task layer - the reader machine under an event loop with a FIFO ready queue of per-packet tasks, loop '
+              'turns, end of stream in the same pass as the last bytes, transport errors, app.shutdown() at any instant and '
+              'raising receive steps: for EVERY event history the packets delivered are a prefix of the framing of the bytes '
+              'fed, equal to it once the queue has drained on an open connection, whatever the chunks and the interleaving '
+              'of turns (tasks_exactly_once_in_order, tasks_delivered_when_drained, tasks_chunks_and_turns_irrelevant), no '
+              'task ever carries a partial packet (tasks_never_partial, tasks_end_mid_packet), no task is withdrawn from the '
+              'queue and after shutdown() everything received before is delivered and at most one more packet '
+              '(tasks_never_withdrawn, tasks_shutdown_guarantee), and a raising receive step changes nothing for the other '
+              'tasks (tasks_isolated). Model and code are tied on every run by differential '
               'execution (real StreamReader with every cut, real NDNApp of both front-ends fed mutated packets) and the '
               'property oracle is evaluated on the implementation.')
 LEVEL_NOTE = ('Proofs are about the model; model = code is sampled. The set of exception classes of the decoders is proved for '
